@@ -25,6 +25,7 @@ materializing the defaulted values can make the configuration archive somewhat
 more hermetic.
 """
 
+import dataclasses
 from typing import Any
 
 from fiddle._src import config
@@ -54,6 +55,15 @@ def materialize_defaults(value: Any) -> None:
     if isinstance(node, config.Buildable):
       for index, arg in enumerate(node.__signature_info__.parameters.values()):
         if arg.default is arg.empty:
+          continue
+        if dataclasses.is_dataclass(
+            node.__fn_or_cls__
+        ) and config._field_uses_default_factory(  # pylint: disable=protected-access
+            node.__fn_or_cls__, arg.name
+        ):
+          # The "default" in the signature is the dataclasses `<factory>`
+          # sentinel, not a value: leave the field unset so that the factory
+          # still runs when the dataclass is built.
           continue
         if arg.kind == arg.POSITIONAL_ONLY:
           # Positional-only arguments are stored (and set) by index.
